@@ -283,7 +283,7 @@ def gen_C01(rng, tier):
         d["ops"] = [{"op": "match", "k": len(d["trace2"]), "unique": False, "alt": True}] + d["ops"]
         for a in d["faults"].get("aborts", []):
             a["op"] = rng.randrange(len(d["ops"]))
-        if "restart_before" in d["faults"]:
+        if "restart_before" in d["faults"] or rng.random() < 0.25:
             d["faults"]["restart_before"] = [1]
         if d["backend"] != "scan" and rng.random() < 0.5:
             # ... on a map that had fewer roads then: some directed edges are added to the live map object
